@@ -340,6 +340,8 @@ class C13(Base):
             sym = op["v"]
         ln = score.sym_length(sym)
         v = score.sym_value(sym)
+        if op.get("as_float") and kind != "add":
+            v = float(v)  # 4.0 is as legal as 4
         feats = {"op": kind, "tuplet": sym[2], "dots": sym[1]}
         before = self.snap(mb)
         exc = None
@@ -621,7 +623,7 @@ def gen_c13(rng, tier):
         elif mode == "edit" and r < 0.5:
             ops.append({"op": "place_at", "bar": b, "index": rng.randrange(8), "content": gen_form(rng)})
         elif r < 0.55:
-            ops.append({"op": "place", "bar": b, "content": gen_form(rng), "v": gen_sym(rng)})
+            ops.append({"op": "place", "bar": b, "content": gen_form(rng), "v": gen_sym(rng), "as_float": rng.random() < 0.2})
         elif r < 0.65:
             ops.append({"op": "rest", "bar": b, "v": gen_sym(rng)})
         elif r < 0.75:
@@ -942,16 +944,16 @@ class C12(Base):
                     names = chords.from_shorthand(op["sh"])
                 except Exception:
                     names = None
-                r = m.obj.from_chord_shorthand(op["sh"])
+                r = m.obj.from_chord(op["sh"]) if op.get("alias") else m.obj.from_chord_shorthand(op["sh"])
             elif kind == "interval":
-                r = m.obj.from_interval_shorthand(op["start"], op["sh"], op.get("up", True))
+                r = (m.obj.from_interval if op.get("alias") else m.obj.from_interval_shorthand)(op["start"], op["sh"], op.get("up", True))
             else:
                 try:
                     pc_ = progressions.to_chords(op["sh"], op.get("key", "C"))
                     names = pc_[0] if pc_ else None
                 except Exception:
                     names = None
-                r = m.obj.from_progression_shorthand(op["sh"], op.get("key", "C"))
+                r = (m.obj.from_progression if op.get("alias") else m.obj.from_progression_shorthand)(op["sh"], op.get("key", "C"))
             exc = None
         except Exception as e:
             exc = e
@@ -1006,6 +1008,12 @@ class C12(Base):
             want_in = score.pitch_of(probe[0], probe[1]) in m.notes
             if (Note(probe[0], probe[1]) in m.obj) != want_in:
                 self.fail("C12.protocol", "%r in container is %s for content %s" % (probe, not want_in, obs), which="in", **feats)
+            order_ = sorted(m.notes)
+            for idx in ([0, -1, len(order_) // 2] if order_ else []):
+                got_n = m.obj[idx]
+                if int(got_n) != order_[idx]:
+                    self.fail("C12.protocol", "container[%d] is %r for content %s" % (idx, got_n, obs), which="getitem", **feats)
+                    break
             names = []
             for p in sorted(m.notes):
                 if m.notes[p][0] not in names:
@@ -1075,11 +1083,11 @@ def gen_c12(rng, tier):
         if (mix == "shorthand" and r < 0.6) or (mix == "all" and r < 0.12):
             k = rng.choice(["chord", "chord", "interval", "progression"])
             if k == "chord":
-                ops.append({"op": "shorthand", "nc": i, "kind": k, "sh": rng.choice(C12_ROOTS) + rng.choice(CHORD_SH)})
+                ops.append({"op": "shorthand", "nc": i, "kind": k, "sh": rng.choice(C12_ROOTS) + rng.choice(CHORD_SH), "alias": rng.random() < 0.3})
             elif k == "interval":
-                ops.append({"op": "shorthand", "nc": i, "kind": k, "start": rng.choice(C12_PLAIN), "sh": rng.choice(INT_SH), "up": rng.random() < 0.6})
+                ops.append({"op": "shorthand", "nc": i, "kind": k, "start": rng.choice(C12_PLAIN), "sh": rng.choice(INT_SH), "up": rng.random() < 0.6, "alias": rng.random() < 0.3})
             else:
-                ops.append({"op": "shorthand", "nc": i, "kind": k, "sh": rng.choice(NUMS), "key": rng.choice(world.ALL_KEYS)})
+                ops.append({"op": "shorthand", "nc": i, "kind": k, "sh": rng.choice(NUMS), "key": rng.choice(world.ALL_KEYS), "alias": rng.random() < 0.3})
         elif (mix == "removes" and r < 0.5) or (mix == "all" and r < 0.35):
             via = rng.choice(["remove_note", "remove_note", "remove_notes", "minus"])
             items = [gen_item(rng, plain) for _ in range(1 if via == "remove_note" else rng.randrange(1, 3))]
@@ -2126,6 +2134,8 @@ def gen_c11(rng, tier):
             v = rng.choice([[1, 0, 1, 1], [2, 0, 1, 1], [4, 0, 1, 1], [4, 0, 1, 1], [8, 0, 1, 1], [8, 1, 1, 1], [8, 0, 3, 2], [16, 0, 1, 1], [4, 1, 1, 1]])
             if rng.random() < 0.25:
                 out.append({"v": v, "notes": None})
+            elif rng.random() < 0.06:
+                out.append({"v": v, "notes": []})  # an empty container: no notes, but not None either
             else:
                 seen, ns = set(), []
                 for _ in range(rng.choice([1, 1, 2, 3, 3, 4, 5, 6])):
